@@ -31,7 +31,7 @@
 From ASModel Require Import Base State Orderings_gen Step Run Progress Hist Inv InvTl InvProto InvStep Sum StepCases.
 From ASModel Require Import GenDefs Gen1 Gen2 Gen EnvDefs Env4 Env LinDefs Lin2 Lin LinCache.
 From ASModel Require Import Safe Main CchMain CchEx.
-From ASModel Require Import Stale Stale2 StaleC StaleCView StaleCInv StaleCInvEx Stale3Fresh Stale3FreshEx.
+From ASModel Require Import Stale Stale2 StaleC StaleCView StaleCInv StaleCInvEx Stale3Fresh Stale3FreshEx Stale3St.
 
 Theorem C16_revalidate :
   forall cf s l c a k x,
@@ -232,7 +232,39 @@ Proof. exact view_handover3. Qed.
 Theorem C16_stale3_scope_inhabited : RunOKS3 cd_cf cd_inits cd_progs cd_sched.
 Proof. exact RunOKS3_example. Qed.
 
+(** The same with STATIC hypotheses: [RunStaticS3] asks for programs without the generation hook
+    whose handles are thread-disjoint ([handles_disjoint]) and a schedule of fewer than 2^62 steps;
+    [no_cache_move_b] / [no_consume_b] are decidable conditions on the program text (no `move` out of
+    a cache handle, the container is never consumed).  What remains dynamic: destinations of
+    commands are empty ([DstEmptyC], a condition on the test program) and the conditions on the
+    scheduler's choices (free addresses, permitted stale values). *)
+Theorem C16_cache_fresh_stale3_static : forall cf inits progs sched t i cm c k pa pb xa tb xb,
+  let s0 := init_state inits progs in
+  RunStaticS3 cf inits progs sched ->
+  no_cache_move_b progs = true ->
+  no_consume_b c progs = true ->
+  nth_error (t_prog (thr s0 t)) (N.to_nat i) = Some cm ->
+  cache_cmd_of (St3 cf s0 sched pa) cm c k ->
+  (pa <= pb)%nat ->
+  nth_error sched pa = Some (t, xa) ->
+  t_status (thr (St3 cf s0 sched pa) t) = Running ->
+  t_stack (thr (St3 cf s0 sched pa) t) = [] ->
+  t_cmdi (thr (St3 cf s0 sched pa) t) = i ->
+  nth_error sched pb = Some (tb, xb) ->
+  t_cmdi (thr (St3 cf s0 sched pb) t) = i ->
+  t_cmdi (thr (St3 cf s0 sched (S pb)) t) = i + 1 ->
+  exists v j,
+    hnd (St3 cf s0 sched (S pb)) k = HCache c v /\
+    nth_error (vh (G3 cf s0 sched (S pb)) c) j = Some v /\
+    (vt (G3 cf s0 sched pa) t c <= j)%nat /\
+    (cm = CCacheLoad k -> (vc (G3 cf s0 sched pa) k <= j)%nat) /\
+    nth_error (vh (G3 cf s0 sched (S pb)) c) (vc (G3 cf s0 sched (S pb)) k) = Some v /\
+    (vc (G3 cf s0 sched (S pb)) k = j \/
+     (hnd (St3 cf s0 sched pb) k = HCache c v /\ (vc (G3 cf s0 sched (S pb)) k <= j)%nat)).
+Proof. exact Stale3St4.C16_cache_fresh_stale3_static. Qed.
+
 Print Assumptions C16_cache_fresh_stale.
+Print Assumptions C16_cache_fresh_stale3_static.
 Print Assumptions C16_cache_fresh_stale3.
 Print Assumptions C16_view_handover3.
 Print Assumptions C16_stale3_scope_inhabited.
